@@ -8,6 +8,8 @@ import RsslVerif.Lemmas.MacroTameSpec
 import RsslVerif.Lemmas.MacroTameRun
 import RsslVerif.Lemmas.MacroPaste
 import RsslVerif.Lemmas.MacroParseWF
+import RsslVerif.Lemmas.MacroTamePSpec
+import RsslVerif.Lemmas.MacroTamePRun
 /-!
 # C12 — macro expansion and inclusion equal reference textual substitution
 
@@ -21,6 +23,7 @@ open RsslVerif.Lemmas.MacroScope RsslVerif.Lemmas.Include RsslVerif.Lemmas.Macro
 open RsslVerif.Lemmas.MacroApi RsslVerif.Lemmas.SpecInert RsslVerif.Lemmas.MacroHang
 open RsslVerif.Model.MacroTame RsslVerif.Lemmas.MacroTame RsslVerif.Lemmas.MacroTameSpec RsslVerif.Lemmas.MacroTameRun
 open RsslVerif.Lemmas.SpecExpand RsslVerif.Lemmas.MacroPaste
+open RsslVerif.Lemmas.MacroTameP RsslVerif.Lemmas.MacroTamePSpec RsslVerif.Lemmas.MacroTamePRun
 
 /-- Tie to the source: the shapes of `preprocess_command`, `apply_single_macro`, `preprocess_initial_file`,
 `Token::is_whitespace`, `compile()` and of every `MacroSearchPosition` the model was written against. -/
@@ -739,6 +742,81 @@ theorem paste_matches_lexer :
                (RsslVerif.Model.Lexer.str (a ++ b)).length⟩]) :=
   ⟨keywords_agree, fun a b k hk hs hkw => paste_identifiers_matches_lexer a b k hk hs hkw,
    paste_operators_match_lexer, fun a b h0 hl hs => paste_numbers_matches_lexer a b h0 hl hs⟩
+
+
+/-! ## Refinement of the reference on the tame class with `##` -/
+
+theorem relP_plain (defs : List Macro) (toks : List PTok) (hnc : NoConcat toks) :
+    RelP (allEnabled defs) (plain (ppTokens toks)) toks := by
+  refine ⟨?_, ?_, ?_⟩
+  · have : (plain (ppTokens toks)).map (·.tok) = ppTokens toks := by
+      simp [plain, List.map_map, Function.comp_def]
+    rw [this]
+    exact pn_of_noConcat _ toks hnc
+  · intro t _ x hx
+    obtain ⟨e, he, hd, _⟩ := mem_disabledNames.mp hx
+    simp only [allEnabled, List.mem_map] at he
+    obtain ⟨m, _, rfl⟩ := he
+    cases hd
+  · intro t ht n _ _ x hx
+    simp only [plain, List.mem_map] at ht
+    obtain ⟨k, _, rfl⟩ := ht
+    cases hx
+
+/-- **expand_refines_spec_with_paste.** The refinement theorem for macro tables with `##`: whenever a token list
+(text: no `Concat` token, the lexer produces `HashHash`) has a tame expansion `out` in the sense of
+`Lemmas.MacroTameP.TameP` -- `Tame` plus: a token next to `##` is pasted with its neighbour without either being
+expanded, the merged token names no enabled macro and is read again; the arguments of an invocation contain no `##`;
+an argument whose parameter stands next to `##` contains no enabled macro name and is not empty -- the model of
+`apply_macros` returns `out` and the reference C algorithm returns the same tokens.
+rssl pastes while it rescans a replacement list (left to right, interleaved with expansions), C pastes the whole
+replacement list inside `subst` before it rescans: the proof goes through the *paste normal form* of the list rssl is
+scanning (`PN`: every paste carried out, white space dropped), which is what the reference's list spells (`RelP`),
+`doPastes_pn` (the reference's `doPastes` carries out exactly the pastes of the normal form) and `replaceParams_paste`
+(raw arguments next to `##`, expanded ones elsewhere).  The side conditions are the ones of `expand_refines_spec` plus
+the three above; `differs_empty_argument_next_to_paste` shows the last one necessary. -/
+theorem expand_refines_spec_with_paste (defs : List Macro) (toks out : List PTok) (hwf : ∀ m ∈ defs, WFMacroP m)
+    (hnc : NoConcat toks) (h : TameP (allEnabled defs) toks out) :
+    applyMacros defs toks = .ok out ∧
+    ∃ fuel r, expand (defs.map ofMacro) fuel (plain (ppTokens toks)) = .ok r ∧ r.map (·.tok) = ppTokens out := by
+  constructor
+  · have := tameP_model h toks SearchPos.start 0 rfl (Nat.le_refl _) (Nat.le_refl _) (passes_start _ _)
+    simpa [applyMacros, allEnabled] using this
+  · have hwf' : ∀ e ∈ allEnabled defs, WFMacroP e.m := by
+      intro e he
+      simp only [allEnabled, List.mem_map] at he
+      obtain ⟨m, hm, rfl⟩ := he
+      exact hwf m hm
+    obtain ⟨r, hs, hro⟩ := tameP_spec h hwf' (plain (ppTokens toks)) (relP_plain defs toks hnc)
+    obtain ⟨f, hf⟩ := sexp_complete hs
+    rw [specTable_allEnabled] at hf
+    exact ⟨f, r, hf f (Nat.le_refl _), hro.toks⟩
+
+/-- **expand_refines_spec_with_paste_decided.** The class with `##` is decided by `tameRunP`
+(`Model/MacroTame.lean`): what it accepts (table with pairwise distinct names) is what rssl and the reference C
+algorithm both yield.  The driver classifies every program of the correspondence run with it (`C12.tame`): about half
+of the generated programs lie in the class. -/
+theorem expand_refines_spec_with_paste_decided (defs : List Macro) (toks out : List PTok) (fuel : Nat)
+    (hwf : ∀ m ∈ defs, WFMacroP m) (hnd : (defs.map (·.name)).Nodup) (hnc : NoConcat toks)
+    (h : tameRunP fuel (allEnabled defs) toks = some out) :
+    applyMacros defs toks = .ok out ∧
+    ∃ fuel' r, expand (defs.map ofMacro) fuel' (plain (ppTokens toks)) = .ok r ∧ r.map (·.tok) = ppTokens out :=
+  expand_refines_spec_with_paste defs toks out hwf hnc
+    (tameRunP_sound fuel _ _ _ (by simpa [entryNames, allEnabled, List.map_map, Function.comp_def] using hnd) h)
+
+section ExamplesP
+private def LP (ks : List Tok) : List PTok := ks.map (⟨·, true⟩)
+
+/-- non-vacuity: `#define CAT(X,Y) X ## Y`, `#define V(X) CAT(v_, X) + CAT(X, 1)`, `#define ID(X) X`;
+text `ID(V(a)) CAT(+, +)`: both operands parameters, a paste inside a nested invocation, an operator paste -/
+example : tameRunP 30 (allEnabled [⟨"CAT", true, 2, LP [.arg 0, .ws, .concat, .ws, .arg 1]⟩,
+      ⟨"V", true, 1, LP [.id "CAT", .lparen, .id "v_", .comma, .ws, .arg 0, .rparen, .ws, .punct "+", .ws,
+        .id "CAT", .lparen, .arg 0, .comma, .ws, .int "1", .rparen]⟩,
+      ⟨"ID", true, 1, LP [.arg 0]⟩])
+      (LP [.id "ID", .lparen, .id "V", .lparen, .id "a", .rparen, .rparen, .ws, .id "CAT", .lparen, .punct "+", .comma,
+        .ws, .punct "+", .rparen]) =
+    some (LP [.id "v_a", .ws, .punct "+", .ws, .id "a1", .ws, .punct "++"]) := by decide
+end ExamplesP
 
 /-! ## Inclusion -/
 
